@@ -38,6 +38,10 @@
 (*   * the order of the balance and the trade notification of one order     *)
 (*     (the projection sorts the notifications of one request by kind);     *)
 (*   * the bought asset is NOT credited (the statement does not ask it).    *)
+(* A request is served the same way whether or not anybody still waits for  *)
+(* its answer: the spec has no notion of a consumed response, so ledger,     *)
+(* fills, ids and notifications of an abandoned OpenOrder are those of an    *)
+(* answered one (the harness abandons requests; Trace_MockExchange judges).  *)
 (* Environment assumptions: initial balances have total = free (the code    *)
 (* asserts it: only market orders exist) and every asset of a listed        *)
 (* instrument has a balance entry (the code expects it).                    *)
